@@ -1,7 +1,7 @@
 """Property -> rules table."""
 from __future__ import annotations
 
-from . import bounds, evaluation, game, gameplay, generators, gym, normalize, regret, save, shapley, solvers
+from . import bounds, coalitions, evaluation, game, gameplay, generators, gym, normalize, regret, save, shapley, solvers
 
 _NOTE = ("Static analysis of /repo's current source (Python ast, own name resolution, provenance terms, "
          "path-sensitive walks). Decides the structural necessary conditions listed; does not observe numeric behaviour.")
@@ -60,6 +60,9 @@ PROPERTIES: dict[str, dict] = {
             "rule": _SITE_RULE},
     "C17": {"title": "An incomplete game object is a faithful map", "rules": [game.rule_c17_columns, game.rule_c17_getters, game.rule_c17_copy_neg_init, game.rule_c17_writers],
             "explanation": _NOTE + " C17: G1 column discipline, G2 guarded getters, G3 masked bulk setters, G4 copy/negation, G5 who-may-write _values, G6 view escape, G7 reset order, G8 reveal/unreveal preconditions.",
+            "rule": _SITE_RULE},
+    "C18": {"title": "Coalitions are finite sets; predicates match definitions", "rules": [coalitions.rule_k3_operators, coalitions.rule_e_enum, coalitions.rule_k1_k2],
+            "explanation": _NOTE + " C18: K3 bit-set algebra - the bitwise expression of every Coalition operator is normalised to its truth table and compared with the set-theoretic specification (decides the operator for all inputs); E-enum completeness-by-construction of the sub/super enumerations in both representations; K1/K2 predicate shape and orientation.",
             "rule": _SITE_RULE},
     "C19": {
         "title": "Saved results read back faithfully and are never overwritten",
